@@ -44,12 +44,12 @@ Conforms(ev) ==
 
 IsWellFormed(ev) == WellFormedAs(P!TryParse(ev.line), ev.line)
 
-VARIABLE i
-Init == i \in 1..(IF N < K THEN N ELSE K)
-Next == i + K <= N /\ i' = i + K
-Spec == Init /\ [][Next]_i
+VARIABLE cursor
+Init == cursor \in 1..(IF N < K THEN N ELSE K)
+Next == cursor + K <= N /\ cursor' = cursor + K
+Spec == Init /\ [][Next]_cursor
 
 Check ==
-  /\ Conforms(Events[i]) \/ PrintT("MISMATCH " \o ToString(i))
-  /\ IsWellFormed(Events[i]) => PrintT("WF " \o ToString(i))
+  /\ Conforms(Events[cursor]) \/ PrintT("MISMATCH " \o ToString(cursor))
+  /\ IsWellFormed(Events[cursor]) => PrintT("WF " \o ToString(cursor))
 =============================================================================
